@@ -515,6 +515,13 @@ def _check_globals_and_nondeterminism(prog: Program, res: Result):
                 if isinstance(n, (ast.Assign, ast.AugAssign)):
                     for t in (n.targets if isinstance(n, ast.Assign) else [n.target]):
                         if isinstance(t, ast.Subscript) and isinstance(t.value, ast.Name) and t.value.id in mutable_globals and t.value.id not in local_stores:
+                            # a memo of a plain function under a key that depends on every parameter does not carry history
+                            from ..memo import memo_bypass
+
+                            mb = [x for x in memo_bypass(prog, fi) if x[1] == t.value.id] if fi.cls is None else []
+                            if mb and all(not x[3] and x[2] == ast.unparse(t.slice) for x in mb) and isinstance(n, ast.Assign):
+                                res.ob("R13.3", f"{q}: {t.value.id}[{ast.unparse(t.slice)[:40]}] memoises a function of its arguments under a key that depends on every parameter", True, prog.loc(fi, n))
+                                continue
                             res.violation("R13.3", f"{q}|stores into {t.value.id}", prog.loc(fi, n), q, f"module-level object {t.value.id} is written by a function")
                 # non-determinism
                 if isinstance(n, ast.Call):
@@ -653,6 +660,14 @@ def _check_nominal_height(prog: Program, res: Result):
 
 M = "ghedesigner.manager"
 VARIANTS = [
+    Variant("nested bi-rectangle domain memoised under a key without b_min (seeded C03_f)", "break",
+            [("ghedesigner.domains", "def bi_rectangle_nested(", "_nested_domains: dict = {}\n\n\ndef bi_rectangle_nested("),
+             ("ghedesigner.domains", "    # find the maximum number of boreholes as a float\n    n_2_max = (length_2 / b_min) + 1\n    n_2_min = (length_2 / b_max_2) + 1\n", "    key = (length_1, length_2, b_max_1, b_max_2, transpose)\n    if key in _nested_domains:\n        return _nested_domains[key]\n    # find the maximum number of boreholes as a float\n    n_2_max = (length_2 / b_min) + 1\n    n_2_min = (length_2 / b_max_2) + 1\n"),
+             ("ghedesigner.domains", "        field_descriptors.append(f_d)\n\n    return bi_rectangle_nested_domain, field_descriptors", "        field_descriptors.append(f_d)\n\n    _nested_domains[key] = (bi_rectangle_nested_domain, field_descriptors)\n    return bi_rectangle_nested_domain, field_descriptors")], "R13.3"),
+    Variant("nested bi-rectangle domain memoised under a key that names every input", "benign",
+            [("ghedesigner.domains", "def bi_rectangle_nested(", "_nested_domains: dict = {}\n\n\ndef bi_rectangle_nested("),
+             ("ghedesigner.domains", "    # find the maximum number of boreholes as a float\n    n_2_max = (length_2 / b_min) + 1\n    n_2_min = (length_2 / b_max_2) + 1\n", "    key = (length_1, length_2, b_min, b_max_1, b_max_2, transpose)\n    if key in _nested_domains:\n        return _nested_domains[key]\n    # find the maximum number of boreholes as a float\n    n_2_max = (length_2 / b_min) + 1\n    n_2_min = (length_2 / b_max_2) + 1\n"),
+             ("ghedesigner.domains", "        field_descriptors.append(f_d)\n\n    return bi_rectangle_nested_domain, field_descriptors", "        field_descriptors.append(f_d)\n\n    _nested_domains[key] = (bi_rectangle_nested_domain, field_descriptors)\n    return bi_rectangle_nested_domain, field_descriptors")]),
     Variant("caller's hourly load list tiled in place (seeded C13_d)", "break",
             [(GHX, "                q_dot = q_dot * n_years", "                q_dot *= n_years")], "R13.7"),
     Variant("hourly simulate no longer refreshes the short-time model (seeded C13_c)", "break",
